@@ -78,3 +78,8 @@ CLAIMS["C18"] = (
     "Generated pairs of lists (clustered positions, partly disjoint tomogram sets, coincident lists, k up to 5, pixel sizes) are compared row by row (query id, rank) with a brute-force reference for neighbour identity, distance, offsets in both frames, angular distance and relative orientation; then both lists are moved rigidly per tomogram and the invariant columns must not change. Held on everything explored.",
     "Distance ties filtered; query ids unique; explicit-matrix rotation algebra trusted.",
 )
+CLAIMS["C19"] = (
+    "property-based validity-predicate test (partition, consecutive order numbers, link distances in (min,max] and recorded) over generated dense clouds, constructive polylines and integer lattices; branch coverage measured by harness-side wrappers",
+    "Generated paired entry/exit lists that drive the suffix/prefix/both-sides/cut branches (frequency of each branch reported in the evidence labels); every output is checked against the partition and link predicates computed by brute force from the input coordinates. Held on everything explored (48 000 cases in the thorough tier after two repairs).",
+    "Real-valued boundary ties filtered; exact boundary hits decided on the integer-lattice family; chains identified by (tomogram, object).",
+)
